@@ -21,6 +21,7 @@ func TestC01_ExactlyOnce(t *testing.T) {
 	hupKnown := known.Listed("C01", "hup-without-in-not-dispatched")
 	vt.CheckSteps(t, 2500, 30, func(rt *rapid.T) {
 		w := newWorld(rt)
+		w.checkReady = true
 		defer w.close()
 		n := rapid.IntRange(2, 5).Draw(rt, "nobjs")
 		for i := 0; i < n; i++ {
